@@ -83,7 +83,8 @@ MStep(m, e, idx) ==
         LET k == m.inv[e.i].k IN
         [m0 EXCEPT !.inv[e.i].st = e.how,
                    !.live = Put(@, k, Get(m.live, k, {}) \ {e.i}),
-                   !.inflight = Put(@, k, Get(m.inflight, k, {}) \ {e.i}),
+                   \* (the invocation stays "in flight" for dependency purposes until its caller has finished its
+                   \*  clean-up, i.e. until that caller's CallEnd: a newcomer may still find the in-flight marker)
                    !.done = IF e.how = "ok" /\ k \notin DOMAIN @ THEN Put(@, k, e.i) ELSE @]
     [] e.e = "Cancel" -> [m0 EXCEPT !.cancelled = @ \cup {e.c}]
     [] e.e = "LoopRunning" -> [m0 EXCEPT !.running = Put(@, e.loop, TRUE)]
@@ -119,7 +120,8 @@ MStep(m, e, idx) ==
                               ELSE Flag(m.bad, "C01", "C01_OneResult", idx))
                         ELSE Flag(m.bad, "C06", "C06_WrongValue", idx)
                    [] OTHER -> Flag(m.bad, "C06", "C06_UnknownOutcome", idx)
-        IN [m0 EXCEPT !.pend = @ \ {c}, !.bad = b]
+        IN [m0 EXCEPT !.pend = @ \ {c}, !.bad = b,
+                      !.inflight = [kk \in DOMAIN @ |-> {i \in @[kk] : m.inv[i].c # c}]]
     [] e.e = "End" ->
         \* every call whose loop was not abandoned must have finished
         LET stuck == {c \in m.pend : m.call[c].loop \notin m.gone} IN
